@@ -34,6 +34,7 @@ CONSTANTS Scenario,       \* which processes run (see Programs)
           InitPresent,    \* does the key exist initially (write "w0")
           PublishAtomic,  \* design switch
           ReadThroughFd,  \* design switch
+          ReadRestarts,   \* design switch: a GET / HEAD whose opened file is not the file it stat'ed starts over
           AttrsBeforePublish, \* design switch: tags etc. written through the descriptor before publication
           WithCrash,      \* TRUE: the gateway process may be killed once, at any step (C11)
           FineSteps,      \* TRUE: PutObject's private stretch (temp file opened / body copied) is split
@@ -70,7 +71,7 @@ vars == <<name, pdir, itags, side, pc, loc, ops, clk, sched>>
 fsvars == <<name, pdir, itags, side>>
 
 NoSide == [etag |-> "none", meta |-> "none", tags |-> "none"]
-NoLoc == [size |-> "none", etag |-> "none", meta |-> "none", tags |-> "none", fd |-> "none"]
+NoLoc == [size |-> "none", etag |-> "none", meta |-> "none", tags |-> "none", fd |-> "none", sino |-> "none"]
 NoOp == [inv |-> 0, ret |-> 0, res |-> "none", body |-> "none", len |-> "none", etag |-> "none", meta |-> "none", tags |-> "none", full |-> TRUE]
 
 Init ==
@@ -186,6 +187,7 @@ GetStart(p) ==
 GetStat(p) ==
     /\ pc[p] = "get_begin"
     /\ loc' = [loc EXCEPT ![p].size = IF name = "none" THEN "none" ELSE IVal(name),
+                          ![p].sino = name,
                           ![p].fd = IF ReadThroughFd THEN name ELSE "none"]
     /\ Goto(p, "stat_obj") /\ Tick(p)
     /\ UNCHANGED <<fsvars, ops>>
@@ -210,9 +212,18 @@ GetOpen(p) ==
          THEN Goto(p, "opened") /\ UNCHANGED <<loc, ops>>
          ELSE IF name = "none"
            THEN Return(p, [NoOp EXCEPT !.res = "absent"]) /\ Goto(p, "done") /\ UNCHANGED loc
-           ELSE loc' = [loc EXCEPT ![p].fd = name] /\ Goto(p, "opened") /\ UNCHANGED ops
+           ELSE /\ loc' = [loc EXCEPT ![p].fd = name]
+                \* (the repair of the by-path read: the file opened is compared with the file stat'ed)
+                /\ Goto(p, IF ReadRestarts /\ name # loc[p].sino THEN "opened_stale" ELSE "opened")
+                /\ UNCHANGED ops
     /\ Tick(p)
     /\ UNCHANGED fsvars
+\* get.opened (stale) -> get.begin: the read starts over
+GetRestart(p) ==
+    /\ pc[p] = "opened_stale"
+    /\ loc' = [loc EXCEPT ![p] = NoLoc]
+    /\ Goto(p, "get_begin") /\ Tick(p)
+    /\ UNCHANGED <<fsvars, ops>>
 \* get.opened -> reply: stream `size from stat` bytes of the opened inode
 GetReturn(p) ==
     /\ pc[p] = "opened"
@@ -257,7 +268,7 @@ DelReturn(p) ==
     /\ UNCHANGED <<name, itags, side, loc>>
 
 Step(p) == \/ PutOpenTmp(p) \/ PutCopyBody(p) \/ PutStart(p) \/ PutSideAttrs(p) \/ PutUnlink(p) \/ PutLink(p) \/ PutRelink(p) \/ PutPost(p) \/ PutReturn(p)
-           \/ GetStart(p) \/ GetStat(p) \/ GetAttrs(p) \/ GetOpen(p) \/ GetReturn(p)
+           \/ GetStart(p) \/ GetStat(p) \/ GetAttrs(p) \/ GetOpen(p) \/ GetRestart(p) \/ GetReturn(p)
            \/ DelStart(p) \/ DelStat(p) \/ DelRemove(p) \/ DelAttrs(p) \/ DelReturn(p)
 
 (******************************* Crash ************************************)
